@@ -52,14 +52,14 @@ type nilAn struct {
 	fns  []*ssa.Function
 	inFn map[*ssa.Function]bool
 
-	derefsParam    map[*ssa.Function]map[int]string
-	mayRetNil      map[*ssa.Function]map[int]string
-	nilOnlyWithErr map[*ssa.Function]map[int]bool
-	falseNonNil    map[*ssa.Function]map[int]bool // f(arg)==false ⇒ arg != nil
-	trueFieldNN    map[*ssa.Function]map[string]bool // f(recv)==true ⇒ recv.<field> != nil
-	writes         map[*ssa.Function]map[writeRef]bool
+	derefsParam        map[*ssa.Function]map[int]string
+	mayRetNil          map[*ssa.Function]map[int]string
+	nilOnlyWithErr     map[*ssa.Function]map[int]bool
+	falseNonNil        map[*ssa.Function]map[int]bool    // f(arg)==false ⇒ arg != nil
+	trueFieldNN        map[*ssa.Function]map[string]bool // f(recv)==true ⇒ recv.<field> != nil
+	writes             map[*ssa.Function]map[writeRef]bool
 	writesOnlyWhenTrue map[*ssa.Function]map[writeRef]bool
-	fresh          map[*ssa.Function]bool // returns a fresh allocation as result 0
+	fresh              map[*ssa.Function]bool // returns a fresh allocation as result 0
 
 	eDoc, eAry, eRaw int64
 	valueNonNilIn    map[*ssa.Function]string // handler -> reason (R-DISPATCH import)
@@ -95,7 +95,7 @@ func newNilAn(b *Body, valueNonNil map[*ssa.Function]string) *nilAn {
 		trueFieldNN: map[*ssa.Function]map[string]bool{},
 		writes:      map[*ssa.Function]map[writeRef]bool{}, fresh: map[*ssa.Function]bool{},
 		writesOnlyWhenTrue: map[*ssa.Function]map[writeRef]bool{},
-		valueNonNilIn: valueNonNil, factCache: map[*ssa.Function][]pathFact{}}
+		valueNonNilIn:      valueNonNil, factCache: map[*ssa.Function][]pathFact{}}
 	a.fns = b.srcFuncs(b.Lib)
 	for _, f := range a.fns {
 		a.inFn[f] = true
